@@ -57,9 +57,12 @@ var lexTable = map[string][]lexeme{
 	"int":   intLex(64),
 	"int64": intLex(64),
 	"int32": intLex(32),
-	"double": {{"1.5", "canon", f64Tok("1.5")}, {"-2", "canon", f64Tok("-2")}, {"1.7976931348623157e308", "boundary", f64Tok("1.7976931348623157e308")}, {"5e-324", "boundary", f64Tok("5e-324")},
+	"double": {{"1.5", "canon", f64Tok("1.5")}, {"-2", "canon", f64Tok("-2")}, {"1.7976931348623157e308", "boundary", f64Tok("1.7976931348623157e308")}, {"5e-324", "boundary", f64Tok("5e-324")}, {"9007199254740993", "boundary", f64Tok("9007199254740993")}, {"0.1", "canon", f64Tok("0.1")},
 		{"1e400", "outOfRange", ""}, {"1,5", "garbage", ""}, {"abc", "garbage", ""}, {"", "empty", ""}},
+	// the long decimals sit next to float32 rounding midpoints: parsing at 64 bits and narrowing rounds them the other way
 	"float": {{"1.5", "canon", f32Tok("1.5")}, {"-2", "canon", f32Tok("-2")}, {"3.4028235e38", "boundary", f32Tok("3.4028235e38")},
+		{"16777217.000000001", "boundary", f32Tok("16777217.000000001")}, {"1.000000059604644775390625000001", "boundary", f32Tok("1.000000059604644775390625000001")},
+		{"340282356779733661637539395458142568447", "boundary", f32Tok("340282356779733661637539395458142568447")}, {"0.1", "canon", f32Tok("0.1")},
 		{"1e39", "outOfRange", ""}, {"1.5x", "garbage", ""}, {"", "empty", ""}},
 	"bool": {{"true", "canon", "b:true"}, {"false", "boundary", "b:false"}, {"tru", "garbage", ""}, {"yes", "garbage", ""}, {"", "empty", ""}},
 	"datetime": {{"2024-01-02T03:04:05Z", "canon", timeTok("2024-01-02T03:04:05Z")}, {"2024-01-02T03:04:05.123456789+02:00", "boundary", timeTok("2024-01-02T03:04:05.123456789+02:00")},
@@ -395,7 +398,7 @@ func checkC04(c *core.Check) {
 				}
 				caseN++
 				cid := fmt.Sprintf("c%d", caseN)
-				rc := driver.ReqCase{ID: cid, Method: "GET", Path: fmt.Sprintf("/d%d", ci), Headers: map[string][]string{}, Script: driver.Script{Parse: true}}
+				rc := driver.ReqCase{ID: cid, Method: "GET", Path: fmt.Sprintf("/d%d", ci), Headers: map[string][]string{}, Script: driver.Script{Parse: true, Reparse: true}}
 				q := url.Values{}
 				var sup []supEntry
 				for di, d := range ds {
